@@ -318,6 +318,33 @@ Definition read_footer (P : N) (f : bytes) : scan_result := scan_footer P f (ble
 Definition read_footer_repaired (P : N) (f : bytes) : scan_result :=
   scan_footer_repaired P f (blen f - 1).
 
+(* ---------- the payload: json.Unmarshal and the load of the segments it names ---------
+   The framing of a footer can be intact while its payload is not what was written: a
+   footer of three or more pages whose first and last page reached the disk and a page in
+   between did not.  `valid` stands for "json.Unmarshal succeeds and the segments load".
+   The current code (repair of F43) treats an invalid payload like any other candidate
+   that is not a footer: it scans on.  The pinned code returned the error. *)
+Section Payload.
+  Variable valid : bytes -> bool.
+
+  Definition scan_step_json (f : bytes) (pos : N) : step_result :=
+    match scan_step_repaired f pos with
+    | Done (Found p payload) => if valid payload then Done (Found p payload) else Continue
+    | r => r
+    end.
+
+  Definition scan_step_json_pinned (f : bytes) (pos : N) : step_result :=
+    match scan_step_repaired f pos with
+    | Done (Found p payload) => if valid payload then Done (Found p payload) else Done ScanError
+    | r => r
+    end.
+
+  Definition read_footer_json (P : N) (f : bytes) : scan_result :=
+    scan_with scan_step_json P f (blen f - 1).
+  Definition read_footer_json_pinned (P : N) (f : bytes) : scan_result :=
+    scan_with scan_step_json_pinned P f (blen f - 1).
+End Payload.
+
 (* ---------- files as the store writes them ---------- *)
 
 (* one persist round: some bytes appended (the segments' kvs/buf regions with
@@ -352,6 +379,14 @@ Definition scan_code (r : scan_result) : N * N :=
 Definition scan_footer_bytes (P : N) (file : bytes) : N * N := scan_code (read_footer P file).
 Definition scan_footer_repaired_bytes (P : N) (file : bytes) : N * N :=
   scan_code (read_footer_repaired P file).
+
+(* the crash images the harness builds leave a page that was not written as zeros, and the
+   JSON text moss writes never holds a NUL byte: on those images "json.Unmarshal succeeds"
+   is "the payload holds no NUL byte" *)
+Definition payload_no_nul (b : bytes) : bool :=
+  fold_left (fun acc x => acc && negb (N.eqb x 0)) b true.   (* a left fold: constant stack in the extracted runner *)
+Definition scan_footer_json_bytes (P : N) (file : bytes) : N * N :=
+  scan_code (read_footer_json payload_no_nul P file).
 
 Definition op_eqb (a b : op) : bool :=
   match a, b with
